@@ -22,7 +22,7 @@ for id in "$@"; do
   out="$d/confirm.txt"
   meta="$d/meta.json"
   tf=$(python3 -c "import json,re,sys; m=json.load(open('$meta')); print(re.match(r'\S+', m['demo_file']).group(0))")
-  tn=$(python3 -c "import json,re,sys; m=json.load(open('$meta')); c=m['demo_cmd']; c=c.split(' -- ')[0]; print(c.split()[-1])")
+  tn=$(python3 -c "import json,re,sys; m=json.load(open('$meta')); c=m['demo_cmd']; t=[x for x in c.split() if re.search(r'(^|::)test_\w+$', x)]; print(t[-1].split('::')[-1] if t else c.split(' -- ')[0].split()[-1])")
   cd "$WT" && git checkout -q -- . && git clean -fdq
   {
     echo "seeded change $id confirmed against /repo $(git -C /repo rev-parse --short HEAD) on $(date -u +%F)"
